@@ -7,6 +7,8 @@ NOREROUTE_SCHED = [False, False, 'resume', 'restart', 'resample']
 PROFILES = {
     'generic': {},
     'lattice': {'p_lattice': 1.0},
+    'exactall': {'p_exact': 1.0, 'p_ps': 0.0},
+    'exactlattice': {'p_exact': 1.0, 'p_ps': 0.0, 'p_lattice': 1.0},
     'continuous': {'p_lattice': 0.0},
     'ring': {  # small capacities, cyclic routing, multi-server: blocking cascades
         'n_nodes': [2, 3, 3, 4], 'p_qcap': 0.85, 'qcaps': [0, 0, 1, 1, 2], 'p_kinds': (0.8, 0.0, 0.2, 0.0),
@@ -73,7 +75,7 @@ def scope_c11(spec, f):
 # property -> (list of (profile, weight), scope predicate, deciding counters (any > 0 makes a run non-trivial))
 PLANS = {
     'C01': ([('generic', 4), ('lattice', 2), ('ring', 2), ('c11', 1), ('c12', 1)], scope_all, ['kinds.accept']),
-    'C02': ([('generic', 4), ('lattice', 2), ('c12', 2), ('c11', 1), ('ring', 1), ('c02ps', 1)], scope_all, ['C02.records']),
+    'C02': ([('generic', 4), ('lattice', 2), ('c12', 2), ('c11', 1), ('ring', 1), ('c02ps', 1), ('exactall', 1)], scope_all, ['C02.records']),
     'C03': ([('generic', 4), ('ring', 2), ('c11', 2), ('c13', 1), ('c12', 1)], scope_all, ['C03.records']),
     'C04': ([('generic', 3), ('c04util', 4), ('ring', 2), ('c12', 1)], scope_all, ['C04.attaches']),
     'C05': ([('c05', 5), ('generic', 3), ('c12', 1), ('c13', 1)], scope_all, ['C05.snapshots_with_waiting']),
@@ -81,11 +83,11 @@ PLANS = {
     'C07': ([('c07', 6), ('ring', 2), ('generic', 2)], scope_c07, ['C07.blocks']),
     'C08': ([('c08', 5), ('c08sched', 2), ('generic', 3), ('c11', 1)], scope_all, ['C08.service_starts_with_choice', 'C08.slot_starts']),
     'C09': ([('c09', 5), ('c09jsq', 3), ('generic', 3)], scope_all, ['C09.routing_decisions']),
-    'C10': ([('c10', 5), ('generic', 4), ('lattice', 1)], scope_all, ['C10.services']),
+    'C10': ([('c10', 5), ('generic', 4), ('lattice', 1), ('exactlattice', 1)], scope_all, ['C10.services']),
     'C11': ([('c11', 9), ('generic', 1)], scope_c11, ['C11.preemptions']),
     'C12': ([('c12', 8), ('generic', 2)], scope_all, ['C12.shift_changes', 'C12.slots']),
     'C13': ([('c13', 7), ('generic', 3)], scope_all, ['C13.renege_events', 'C13.baulk_decisions']),
-    'C14': ([('c14', 3), ('c14lattice', 2), ('c14wide', 4), ('c12', 1), ('c11', 1), ('c13', 1), ('ring', 1), ('c09', 1)], scope_all, ['C14.runs_completed']),
+    'C14': ([('c14', 3), ('c14lattice', 2), ('c14wide', 4), ('c12', 1), ('c11', 1), ('c13', 1), ('ring', 1), ('c09', 1), ('exactall', 1)], scope_all, ['C14.runs_completed']),
     'C17': ([('c17', 6), ('c17ncm', 2), ('generic', 2), ('ring', 1)], lambda spec, f: bool(spec.get('tracker')), ['C17.state_comparisons']),
 }
 
